@@ -1137,8 +1137,7 @@ impl FloatLiteral {
         match float_type {
             | FloatType::Float32 => {
                 let narrowed = value as f32;
-                (!value.is_finite() || narrowed.is_finite())
-                    .then(|| Self::from_f32_bits(narrowed.to_bits()))
+                narrowed.is_finite().then(|| Self::from_f32_bits(narrowed.to_bits()))
             }
             | FloatType::Float64 => Some(Self::from_bits(value.to_bits())),
         }
